@@ -51,21 +51,21 @@ type invokeState struct {
 type Monitor struct {
 	w *World
 	Model
-	anyFailure bool                // some user function returned an error or panicked earlier in this history
+	anyFailure bool // some user function returned an error or panicked earlier in this history
 	// swallowedOps: ops in which an optional parameter got the zero value although a provider is registered
 	swallowedOps map[int]bool
 	// mayOf: per Invoke op, the functions that can take part in its resolution
-	mayOf map[int]map[int]bool
-	role       map[int]interface{} // fn id -> *Reg | *Dec
-	okExecs    map[int]int
-	viol       []Violation
-	seen       map[string]bool
-	stats      map[string]int
-	situ       map[string]int // resolution situations observed
-	pend       *pendingCall
-	inv        *invokeState
-	cbPending  map[int]*ExecRec
-	invInfos   map[int]*invInfo
+	mayOf     map[int]map[int]bool
+	role      map[int]interface{} // fn id -> *Reg | *Dec
+	okExecs   map[int]int
+	viol      []Violation
+	seen      map[string]bool
+	stats     map[string]int
+	situ      map[string]int // resolution situations observed
+	pend      *pendingCall
+	inv       *invokeState
+	cbPending map[int]*ExecRec
+	invInfos  map[int]*invInfo
 	// reentrant: a user function has called back into the container. The spec state does not model
 	// nested resolution; from then on only the rules that need no model stay armed.
 	reentrant  bool
@@ -600,10 +600,10 @@ func (m *Monitor) onCallback(f *Fn, ci dig.CallbackInfo) {
 		} else if rec.Err.Inner != nil {
 			// the function's error wraps a foreign dig error: RootCause looks through it (known finding of C13);
 			// the callback must still carry the function's own error
-			if !errors.Is(ci.Error, rec.Err) {
+			if !errors.Is(ci.Error, rec.errVal()) {
 				m.violate("C20", "C20.callback-error", "f%d callback Error %v does not carry the function's error %v", f.ID, ci.Error, rec.Err)
 			}
-		} else if dig.RootCause(ci.Error) != error(rec.Err) {
+		} else if dig.RootCause(ci.Error) != rec.errVal() {
 			m.violate("C20", "C20.callback-error", "f%d callback root cause %v is not the function's error %v", f.ID, dig.RootCause(ci.Error), rec.Err)
 		}
 	case "panic":
@@ -619,8 +619,12 @@ func (m *Monitor) onCallback(f *Fn, ci dig.CallbackInfo) {
 	if ci.Runtime != rec.Dur {
 		m.violate("C20", "C20.callback-runtime", "f%d callback Runtime %v, time spent inside the function %v", f.ID, ci.Runtime, rec.Dur)
 	}
-	if f.Pool > 0 {
-		if want := poolName(f.Pool - 1); ci.Name != want {
+	if _, isReg := m.role[f.ID].(*Reg); f.Pool > 0 || (f.LocPC > 0 && isReg) {
+		want := fnDotName(f)
+		if _, isDec := m.role[f.ID].(*Dec); isDec && f.Pool > 0 {
+			want = poolName(f.Pool - 1)
+		}
+		if ci.Name != want {
 			m.violate("C20", "C20.callback-name", "f%d callback Name %q want %q", f.ID, ci.Name, want)
 		}
 		m.stats["callback.name-checked"]++
@@ -933,6 +937,9 @@ func (m *Monitor) afterCall(i int, op *Op, f *Fn, rec *OpRec) {
 
 // fnDotName: the "package.Name" dig reports for a harness function.
 func fnDotName(f *Fn) string {
+	if f.LocPC > 0 {
+		return fmt.Sprintf("digverif/vt.Loc%d", f.LocPC-1)
+	}
 	if f.Pool > 0 {
 		return poolName(f.Pool - 1)
 	}
@@ -1112,12 +1119,12 @@ func (m *Monitor) afterInvoke(i int, op *Op, f *Fn, rec *OpRec) {
 		} else if cl != VUser {
 			m.violate("C07,C04,C13", "C07.failure-hidden", "f%d returned an error but the Invoke verdict is %s (%v)", e.Fn, cl, rec.Err)
 		} else if e.Fn == f.ID {
-			if rec.Err != error(e.Err) {
+			if rec.Err != e.errVal() {
 				m.violate("C13", "C13.invoked-error-changed", "Invoke returned %v, not the invoked function's own error value", rec.Err)
 			}
-		} else if !errors.Is(rec.Err, e.Err) {
+		} else if !errors.Is(rec.Err, e.errVal()) {
 			m.violate("C13,C07", "C13.rootcause", "errors.Is does not find the injected error %v in %v", e.Err, rec.Err)
-		} else if rc := dig.RootCause(rec.Err); rc != error(e.Err) {
+		} else if rc := dig.RootCause(rec.Err); rc != e.errVal() {
 			// known finding F16: RootCause looks THROUGH a user error that wraps a dig error and yields the root
 			// cause of the wrapped (foreign) error. Anything else is an ordinary C13.rootcause violation.
 			if e.Err.Inner != nil && rc != nil && fmt.Sprintf("%T|%v", rc, rc) == fmt.Sprintf("%T|%v", dig.RootCause(e.Err.Inner), dig.RootCause(e.Err.Inner)) {
